@@ -870,7 +870,7 @@ func limbPatterns(mod *big.Int) [][4]uint64 {
 }
 
 func explorePredicateMatrix() {
-	pats := limbPatterns(ref.N)
+	pats := append(limbPatterns(ref.N), mc.HalfWordLimbPatterns(ref.N)...) // + words with half-word structure (32-bit folds)
 	mc.Par(len(pats), func(i int) {
 		a := secp256k1.NewScalar()
 		secp256k1.VerifScalarSetLimbs(a, pats[i])
